@@ -291,6 +291,18 @@ def vc_reset(ctx):
                 cb = facts.cb(clo[1])
                 ctx.analysed.add(cb.key)
                 errs, det = uncovered_scan_errors(facts, cb, mapping)
+                if errs and facts.view != 'orig':
+                    # the predicate as written is an equivalent view of itself: where the scan only becomes visible after the
+                    # helper holding it was inlined (`reset_remove` -> `forget`), the inlined view of the closure may have
+                    # `other.get(actor)` expanded into its body; the closure is then judged as written
+                    v0 = facts.view
+                    facts.view = 'orig'
+                    try:
+                        errs0, det0 = uncovered_scan_errors(facts, facts.cb(clo[1]), mapping)
+                    finally:
+                        facts.view = v0
+                    if not errs0:
+                        errs, det = errs0, det0
                 whole = not (set(iter_adaptors(item[1] if item and item[0] == 'item' else ('top',))) & LOSSY_ADAPTORS)
                 if not whole:
                     errs.append('the scan does not range over all of our entries')
